@@ -67,12 +67,6 @@ impl<'a> TraceChecker<'a> {
                 self.cand_open.remove(n);
                 self.cand_answered.insert(*n);
             }
-            Ev::CandDropped(n) => {
-                self.cand_open.remove(n);
-            }
-            Ev::DepsDropped(s) => {
-                self.deps_open.remove(s);
-            }
             Ev::CandCall(n) => {
                 *self.cand_calls.entry(*n).or_insert(0) += 1;
                 let dup = self.cand_answered.contains(n) || !self.cand_open.insert(*n);
